@@ -31,6 +31,7 @@ class Supp(object):
         self.assistant = m['supp.assistant']
         self.linter = m['supp.linter']
         self.name = m['supp.name']
+        self.evaluator = m['supp.evaluator']
         projdir = '/tmp/text/proj-c11'
         os.makedirs(projdir, exist_ok=True)
         self.projdir = projdir
@@ -80,7 +81,32 @@ def formfeed_class(src, pos=None):
     return any(ch in src for ch in textgen.SPLITLINES_ONLY)
 
 
-def oracle_source(S, src, filename, tree=None, with_lint=True, location_cursors=0, rng=None):
+def raw_declarations(S, src, cur, filename):
+    """what location() computes before its projection: (declared_at, filename) of the declarations of the marked node,
+    in the analysis of the marked text (name / attribute cursors only)"""
+    try:
+        source = S.util.Source(src, filename, cur)
+        S.nast.extract_scope(source, S.project)
+        if S.util.get_marked_import(source.tree):
+            return None
+        node = S.util.get_marked_name(source.tree) or S.util.get_marked_atribute(source.tree)
+        if not node:
+            return []
+        result = S.evaluator.EvalCtx(S.project).declarations(node, [])
+    except Exception:  # noqa
+        return None
+    out = []
+    for r in result:
+        if isinstance(r, list):
+            alts = [[list(n.declared_at), n.filename] for n in r if hasattr(n, 'declared_at')]
+            if alts:
+                out.append(alts)
+        elif hasattr(r, 'declared_at'):
+            out.append([list(r.declared_at), r.filename])
+    return out
+
+
+def oracle_source(S, src, filename, tree=None, with_lint=True, location_cursors=0, rng=None, proj=None):
     """-> (list of (what, detail) failures, stats dict)"""
     fails = []
     st = {'bindings': 0, 'judged': 0, 'nonascii_skipped': 0, 'lint_entries': 0, 'location_results': 0, 'handlers': 0,
@@ -146,17 +172,43 @@ def oracle_source(S, src, filename, tree=None, with_lint=True, location_cursors=
     if location_cursors:
         reads = [n for n in ast.walk(tree) if isinstance(n, ast.Name) and isinstance(n.ctx, ast.Load)
                  and n.lineno == n.end_lineno and is_ascii(lines[n.lineno - 1])]
-        if rng is not None and len(reads) > location_cursors:
-            reads = rng.sample(reads, location_cursors)
-        for n in reads:
-            cur = (n.lineno, n.end_col_offset)
+        # reads with a candidate definition on their own line come first (the mark shifts what stands right of the cursor)
+        same = [n for n in reads if any(p[0] == n.lineno for p in by_name.get(n.id, ()))]
+        other = [n for n in reads if not any(p[0] == n.lineno for p in by_name.get(n.id, ()))]
+        if rng is not None:
+            if len(same) > 3 * location_cursors:
+                same = rng.sample(same, 3 * location_cursors)
+            if len(other) > location_cursors:
+                other = rng.sample(other, location_cursors)
+        cursors = []
+        for n in same:
+            cursors.append((n, (n.lineno, n.end_col_offset)))
+            if n.end_col_offset - n.col_offset > 1:
+                cursors.append((n, (n.lineno, n.col_offset + 1 + (rng.randrange(n.end_col_offset - n.col_offset - 1) if rng else 0))))
+        for n in other:
+            cursors.append((n, (n.lineno, n.end_col_offset)))
+        for n, cur in cursors:
+            rights = [p for p in by_name.get(n.id, ()) if p[0] == cur[0] and p[1] > cur[1]]
+            lefts = [p for p in by_name.get(n.id, ()) if p[0] == cur[0] and p[1] <= cur[1]]
+            st['location_cursors'] = st.get('location_cursors', 0) + 1
+            if rights:
+                st['location_cursors_with_definition_right_on_line'] = st.get('location_cursors_with_definition_right_on_line', 0) + 1
+            if lefts:
+                st['location_cursors_with_definition_left_on_line'] = st.get('location_cursors_with_definition_left_on_line', 0) + 1
             try:
                 locs = S.assistant.location(S.project, src, cur, filename)
             except (SyntaxError, RecursionError):
                 continue
             except Exception as e:  # noqa  -- totality of the API is property C08, not C11: counted, not judged
                 st['location_raised_' + type(e).__name__] = st.get('location_raised_' + type(e).__name__, 0) + 1
+                if os.environ.get('C11_SHOW_CRASHES'):
+                    import traceback
+                    common.log('C11_SHOW_CRASHES', repr(src), cur, type(e).__name__, e, traceback.extract_tb(e.__traceback__)[-1])
                 continue
+            if proj is not None and (rights or lefts or (rng is not None and rng.random() < 0.3)):
+                raw = raw_declarations(S, src, cur, filename)
+                if raw is not None:
+                    proj.append((raw, cur, filename, locs))
             flat = []
             for r in locs:
                 flat += r if isinstance(r, list) else [r]
@@ -165,9 +217,8 @@ def oracle_source(S, src, filename, tree=None, with_lint=True, location_cursors=
                     continue
                 st['location_results'] += 1
                 pos = tuple(r['loc'])
-                # the marked line is longer: positions right of the cursor on its line are shifted by the mark
                 if pos[0] == cur[0] and pos[1] > cur[1]:
-                    continue
+                    st['location_results_right_of_cursor_on_its_line'] = st.get('location_results_right_of_cursor_on_its_line', 0) + 1
                 if pos in star_pos:
                     continue
                 if pos == (1, 0) and not any(pos in v for v in by_name.values()):
@@ -383,13 +434,15 @@ def run(check):
     n_fail = 0
     loc_budget = 4 if quick else 12
 
+    proj = []
+
     def run_oracle(kind, src, fn, lint, cursors):
         nonlocal n_fail
         try:
             tree = ast.parse(src)
         except SyntaxError:
             return
-        fails, st = oracle_source(S, src, fn, tree, with_lint=lint, location_cursors=cursors, rng=rng)
+        fails, st = oracle_source(S, src, fn, tree, with_lint=lint, location_cursors=cursors, rng=rng, proj=proj)
         for k, v in st.items():
             totals[k] = totals.get(k, 0) + v
         n_fail += len(fails)
@@ -401,7 +454,40 @@ def run(check):
         small = len(src) < (40000 if quick else 150000)
         run_oracle('file', src, f, small, (loc_budget if small else 0))
 
-    check.cov['evaluations'] = n_raw + n_decl + totals.get('bindings', 0) + totals.get('lint_entries', 0) + totals.get('location_results', 0)
+    # 4a. correspondence: the projection of location() (un-shift of the mark) on the raw declarations of the marked analysis
+    reqs, want = [], []
+    for raw, cur, fn, locs in proj:
+        flat_raw, flat_out = [], []
+        for r in raw:
+            flat_raw += r if r and isinstance(r[0], list) and isinstance(r[0][0], list) else [r]
+        for r in locs:
+            flat_out += r if isinstance(r, list) else [r]
+        if len(flat_raw) != len(flat_out):
+            reqs.append(None)
+            want.append((cur, fn, flat_raw, flat_out))
+            continue
+        for (pos, f), o in zip(flat_raw, flat_out):
+            reqs.append({'op': 'location_entry', 'file': cps(f), 'srcfile': cps(fn), 'ln': pos[0], 'col': pos[1], 'cln': cur[0], 'ccol': cur[1]})
+            want.append((cur, fn, [pos, f], o))
+    prep = iter(common.ask_driver([r for r in reqs if r is not None], exe='drv_text'))
+    dis_proj = n_proj = moved = 0
+    for r, (cur, fn, raw, o) in zip(reqs, want):
+        if r is None:
+            dis_proj += 1
+            check.oblige('correspondence location projection', False, 'cursor %r of %s: %d raw declarations, %d results' % (cur, fn, len(raw), len(o)))
+            continue
+        rep = next(prep)
+        n_proj += 1
+        moved += 1 if rep['loc'] != rep['legacy'] else 0
+        if rep['loc'] != list(o['loc']) or textgen.uncps(rep['file']) != o['file']:
+            dis_proj += 1
+            if dis_proj <= 5:
+                check.oblige('correspondence location projection', False,
+                             'cursor %r, raw declaration %r: impl %r, model %r' % (cur, raw, [list(o['loc']), o['file']], [rep['loc'], textgen.uncps(rep['file'])]))
+    if dis_proj == 0:
+        check.oblige('correspondence location projection (model locationEntry = location() on the declarations of the marked analysis)', True)
+
+    check.cov['evaluations'] = n_proj + n_raw + n_decl + totals.get('bindings', 0) + totals.get('lint_entries', 0) + totals.get('location_results', 0)
     check.cov['distinct_nontrivial'] = len(set((s, tuple(l[1:])) for (k, s, f, i, labs, st) in meta for l in labs if l[0] != 'raw'))
     check.cov['rule'] = ('correspondence: every import/def/class binding of %d generated layouts (fixed list + random programs: multi-name, '
                          'parenthesised multi-line imports, aliases equal to module/member names, dotted and relative imports, decorated/async '
@@ -414,6 +500,7 @@ def run(check):
                         'hypothesis_no_newline_inside_a_line(true of sources)': '%d of %d' % (hyp_nonl, len(replies)),
                         'hypothesis_ascii_line(true of lines)': '%d of %d' % (sum(hyp_ascii), sum(hyp_lines)),
                         'find_id_loc_calls': n_raw, 'declared_at_bindings': n_decl, 'model_fallbacks': fallbacks,
+                        'location_projections': n_proj, 'location_projections_unshifted': moved, 'disagreements_location_projection': dis_proj,
                         'disagreements_find_id_loc': dis_raw, 'disagreements_declared_at': dis_decl,
                         'layout_features': gen.features, 'oracle': totals, 'oracle_failures_before_known_findings': n_fail})
     for kind, src in programs[n_fixed:n_fixed + 3]:
